@@ -237,6 +237,16 @@ def Sim.op (s : Sim) (tok : String) : Option Sim :=
         pure ({ s with model := restart m (fullsFor n), cfg := { s.cfg with cache := n } }.emit "ok")
       else
         pure ({ s with model := restartAborted m 1 (fullsFor n), cfg := { s.cfg with cache := n } }.emit "int")
+  | 'J' :: rest => do
+    -- FetchSpendJournal of any delivered block: exact for an active block; for an inactive one
+    -- the record is absent, which reads as empty when the block spends nothing, else as an error
+    let id ← (String.ofList rest).toNat?
+    let n ← s.find id
+    let pre := s.chain.takeWhile (fun b => b.id != id)
+    if s.chain.any (fun b => b.id == id) then
+      pure (s.emit s!"j={join "," ((journalOf (utxoOf pre) (pre.length + 1) n.blk).map entryStr)}")
+    else if countIns n.blk == 0 then pure (s.emit "j=")
+    else pure (s.emit "err")
   | 'V' :: rest => do
     -- FetchUtxoView of a known transaction: its outputs, then (unless coinbase) its inputs
     let id ← (String.ofList rest).toNat?
@@ -339,6 +349,82 @@ def runCache (toks : List String) : String :=
   | none => "bad-op"
   | some s => join "|" s.out.reverse
 
+/-! ### view lines: the exported UtxoViewpoint / UtxoEntry API on a bare view -/
+
+structure VSim where
+  view : View := emptyView
+  known : List OutPoint := []
+  out : List String := []
+
+def ventryStr (ce : CEntry) : String := s!"{entryStr ce.e}.{if ce.spent then 1 else 0}"
+
+def VSim.dump (s : VSim) (res : String) : VSim :=
+  let v := join "," (s.known.filterMap (fun o => match s.view.get o with
+    | none => none
+    | some none => some s!"{opStr o}:nil"
+    | some (some ce) => some s!"{opStr o}:{ventryStr ce}"))
+  { s with out := s!"{res};v={v}" :: s.out }
+
+def VSim.know (s : VSim) (os : List OutPoint) : VSim := { s with known := os.foldl (fun k o => insertOp o k) s.known }
+
+def VSim.op (s : VSim) (tok : String) : Option VSim :=
+  match tok.toList with
+  | 'T' :: rest =>
+    match (String.ofList rest).splitOn ":" with
+    | [cb, h, tx] => do
+      let cb ← parseBool? cb
+      let h ← h.toNat?
+      let t ← parseTx? tx
+      let s := s.know (txOutpoints t)
+      pure ({ s with view := viewAddTxOuts t.id h cb 0 t.outs s.view }.dump "ok")
+    | _ => none
+  | 'o' :: rest =>
+    match (String.ofList rest).splitOn ":" with
+    | [cb, h, idx, tx] => do
+      let cb ← parseBool? cb
+      let h ← h.toNat?
+      let idx ← idx.toNat?
+      let t ← parseTx? tx
+      let s := s.know (txOutpoints t)
+      -- an out-of-range index is ignored
+      match t.outs[idx]? with
+      | some out => pure ({ s with view := viewAddTxOut s.view (t.id, idx) out cb h }.dump "ok")
+      | none => pure (s.dump "ok")
+    | _ => none
+  | 'r' :: rest => do
+    let o ← parseOutPoint? (String.ofList rest)
+    let s := s.know [o]
+    pure ({ s with view := setSlot s.view o none }.dump "ok")
+  | 's' :: rest => do
+    let o ← parseOutPoint? (String.ofList rest)
+    let s := s.know [o]
+    match s.view.get o with
+    | some (some ce) => pure ({ s with view := setSlot s.view o (some (some ce.spend)) }.dump "ok")
+    | _ => pure (s.dump "ok")
+  | 'l' :: rest => do
+    let o ← parseOutPoint? (String.ofList rest)
+    let s := s.know [o]
+    match s.view.get o with
+    | some (some ce) => pure (s.dump (ventryStr ce))
+    | _ => pure (s.dump "nil")
+  | 'h' :: rest => do
+    let n ← (String.ofList rest).toNat?
+    pure (s.dump (toString n))
+  | 'e' :: rest =>
+    match (String.ofList rest).splitOn ":" with
+    | [o, amt, sc, h, cb] => do
+      let o ← parseOutPoint? o
+      let e : Entry := ⟨(← amt.toInt?), (← parseScript? sc), (← h.toNat?), (← parseBool? cb)⟩
+      let s := s.know [o]
+      pure ({ s with view := setSlot s.view o (some (some ⟨e, false, false, false⟩)) }.dump "ok")
+    | _ => none
+  | _ => none
+
+def runView (toks : List String) : String :=
+  match toks.foldlM (fun (s : VSim) t => s.op t) ({} : VSim) with
+  | none => "bad-op"
+  | some s => join "|" s.out.reverse
+
 def handle : List String → String
   | "chain" :: cfg :: toks =>
     match parseCfg? cfg with
@@ -356,6 +442,7 @@ def handle : List String → String
         | none => "bad-op"
       | [] => "bad-op"))
   | "cache" :: toks => runCache toks
+  | "view" :: toks => runView toks
   | _ => "bad-op"
 
 end BV.C03.Driver
